@@ -13,7 +13,8 @@
    The height test of checkBlock is a uint64 addition (wadd): the invariant is preserved by a delivery as long as the
    store holds fewer than 2^64 blocks, hence for every delivery sequence shorter than 2^64 - 1.
 
-   The node's own [top_h] (stats.TopHeight) is NOT always the height of [top]: see Proofs/ChainHeights.v. *)
+   That the node's own [top_h] (stats.TopHeight) is the height of [top], and the final theorems, are in
+   Proofs/ChainHeights.v. *)
 From Virel Require Import Lib.Config Lib.U64 Lib.AMap Model.Ledger Model.Node Proofs.AMapLemmas Proofs.Conservation
   Proofs.NodeBasics Proofs.ForkChoice Proofs.Restart.
 Open Scope N_scope.
